@@ -378,7 +378,7 @@ func runC11(r *core.Run) {
 		"(a trailing '==================' [+ 'WARNING: DATA RACE'] may be withheld), and flags any Read issued after the line that ends a dump was delivered; a read-ahead reader is the positive control. " +
 		"end to end: pp on pipes, piece by piece, causal classification (bytes that appear only after more input/EOF). distinct = hash(case); non-trivial = >= 2 blocking points")
 	r.Assume("a Read call is the only point where the source can block", "the e2e waits are watchdogs; only the causal order (appeared before / only after more input) decides")
-	n := r.N(60000, 300000)
+	n := r.N(60000, 1500000)
 	core.Parallel(n, workers(), func(i int) {
 		c := genC11(r, i)
 		c11Eval(r, c, false)
